@@ -134,6 +134,11 @@ def run(db, res, tier):
             guarded = any(t is guard and pol for t, pol in pc_literals(a.pc))
             big_bound = (lck.scalar_binding_text(big) or "").endswith("." + big)
             lo_ok = guarded and big_bound and (big, ext) in MODEL_EXTENT_INVARIANTS
+          if not lo_ok and isinstance(hi_t, T) and hi_t.op == "call" and hi_t.args[0] in ("wp.max", "max") and same_elem and bound_ok:
+            # fused form over `range(max(.., <ext>, ..))` with the guard `i < <ext>`: max dominates each of its arguments
+            guard = T("cmp", "<", iv, T("p", ext))
+            guarded = any(t is guard and pol for t, pol in pc_literals(a.pc))
+            lo_ok = guarded and any(x is T("p", ext) for x in hi_t.args[1:])
         elif isinstance(iv, T) and iv.op == "tid":
           # parallel form: one thread per element, guarded `elemid < <ext>`, launch extent covering m.<ext>
           guard = T("cmp", "<", iv, T("p", ext))
